@@ -97,7 +97,7 @@ type KeyCase struct {
 	Macro  bool  `json:"macro_clash"` // the template exports a macro with that name
 	Reject bool  `json:"reject"`
 	// Extends: the executed template extends a base (the exported macro, if any, is the executed template's own);
-	// Via: "" = Execute, "globals" = the key sits in the set's Globals, "blocks" = ExecuteBlocks
+	// Via: "" = Execute, "globals" = the key sits in the set's Globals, "globals-nil" = the same with a nil Context, "blocks" = ExecuteBlocks
 	Extends bool   `json:"extends,omitempty"`
 	Via     string `json:"via,omitempty"`
 }
@@ -130,6 +130,12 @@ func (c *KeyCase) Exec(t *eng.T) {
 		set.Globals[string(c.Key)] = "v"
 		ctx = pongo2.Context{"ok": "1"}
 		before = pongo2.Context{"ok": "1"}
+	}
+	if c.Via == "globals-nil" {
+		// the key sits in the Globals and the caller passes no context at all
+		set.Globals[string(c.Key)] = "v"
+		set.Globals["ok"] = "1"
+		ctx, before = nil, nil
 	}
 	var o px.Out
 	if c.Via == "blocks" {
@@ -287,6 +293,44 @@ func run(r *eng.Runner) {
 		}
 	}
 
+	// sequences owned by the caller (context) or the set (globals) that loops reorder
+	r.Group("caller-data", "prog.case", "loops with every subset of {reversed, sorted} over lists and maps that belong to the caller's context or the set's globals, reached directly, through with / set aliases and as a macro argument: the data is the same afterwards (deep comparison) and a second loop sees the original order")
+	{
+		cx := map[string]V{"l": ListV(IntV(3), IntV(1), IntV(2)), "ls": ListV(StrV("b"), StrV("c"), StrV("a")), "m": MapV("z", IntV(1), "y", IntV(2))}
+		gl := map[string]V{"gl": ListV(IntV(9), IntV(7), IntV(8)), "gs": ListV(StrV("q"), StrV("p"))}
+		for _, name := range []string{"l", "ls", "m", "gl", "gs"} {
+			for mask := 1; mask < 4; mask++ {
+				for route := 0; route < 4; route++ {
+					loop := func(over Expr) Node {
+						return For{Key: "x", Over: over, Reversed: mask&1 != 0, Sorted: mask&2 != 0, Body: []Node{O(v("x")), T(",")}}
+					}
+					plain := For{Key: "x", Over: v(name), Body: []Node{O(v("x")), T(";")}}
+					var main []Node
+					switch route {
+					case 0:
+						main = []Node{loop(v(name))}
+					case 1:
+						main = []Node{With{Pairs: []Pair{{"q", v(name)}}, Body: []Node{loop(v("q"))}}}
+					case 2:
+						main = []Node{Set{Name: "q", E: v(name)}, loop(v("q"))}
+					case 3:
+						main = []Node{Macro{Name: "mm", Params: []Param{{Name: "q"}}, Body: []Node{loop(v("q"))}}, O(Call{Name: "mm", Args: []Expr{v(name)}})}
+					}
+					if name == "m" {
+						plain = For{Key: "x", Over: v(name), Sorted: true, Body: []Node{O(v("x")), T(";")}}
+					}
+					main = append(append([]Node{T("<")}, main...), T("|"), plain, T(">"))
+					c, ok := prog.BuildTwice(map[string][]Node{"/main": main}, cx, prog.Vary(cx), gl, "caller-data", fmt.Sprint("caller-data ", name, mask, route), false)
+					if !ok {
+						r.AddExtra("programs_outside_fragment", 1)
+						continue
+					}
+					r.Do(c)
+				}
+			}
+		}
+	}
+
 	r.Group("execute-blocks", "c12.blocks", "ExecuteBlocks on a child whose requested blocks are spread over child and base: a set / with / for binding made in one block is not visible in the next block")
 	probe := "{{ a }},{{ b }}"
 	for _, bw := range [][2]string{{`{% set a = "child" %}{% set b = "child" %}`, "[one:child,child]"}, {`{% with a="w" %}{% set b = "ws" %}{% endwith %}{% set a = "after" %}`, "[one:after,gb]"}, {`{% for a in l %}{% set b = a %}{% endfor %}{% set q = 1 %}`, "[one:ca,gb]"}} {
@@ -302,12 +346,12 @@ func run(r *eng.Runner) {
 	}
 	r.Do(&KeyCase{Key: "mac", Macro: true, Reject: true})
 	// the same rules when the executed template extends a base, when the key comes from the set's Globals, and for ExecuteBlocks
-	for _, via := range []string{"", "globals", "blocks"} {
+	for _, via := range []string{"", "globals", "blocks", "globals-nil"} {
 		r.Do(&KeyCase{Key: "mac", Macro: true, Reject: true, Extends: true, Via: via})
 		r.Do(&KeyCase{Key: "other", Reject: false, Extends: true, Via: via})
 		r.Do(&KeyCase{Key: "a-b", Reject: true, Extends: true, Via: via})
 		r.Do(&KeyCase{Key: "fine", Reject: false, Extends: true, Via: via})
-		if via == "globals" {
+		if via == "globals" || via == "globals-nil" {
 			r.Do(&KeyCase{Key: "mac", Macro: true, Reject: true, Via: via})
 			r.Do(&KeyCase{Key: "a b", Reject: true, Via: via})
 		}
